@@ -201,10 +201,14 @@ func runSolver(s solverSpec, file string, timeoutS int) (string, float64, string
 	_ = cmd.Run()
 	dt := time.Since(t0).Seconds()
 	text := out.String()
-	first := strings.TrimSpace(strings.SplitN(text, "\n", 2)[0])
-	switch first {
-	case "sat", "unsat", "unknown":
-		return first, dt, text
+	for _, l := range strings.Split(text, "\n") {
+		switch l = strings.TrimSpace(l); l {
+		case "sat", "unsat", "unknown":
+			return l, dt, text
+		}
+		if strings.HasPrefix(l, "(error") {
+			break
+		}
 	}
 	if strings.Contains(text, "timeout") {
 		return "timeout", dt, text
